@@ -1,14 +1,15 @@
 #!/bin/bash
+REPO=${REPO:-/repo}  # the tree the change is applied to (default /repo; a scratch worktree of the same commit while /repo is busy)
 # seedrecheck.sh <name> [tier] : re-runs the property's check with a stored seeded change applied to /repo and updates meta.json
 name=$1; tier=${2:-quick}
 dst=/verif/seeded/$name
 prop=$(python3 -c "import json;print(json.load(open('$dst/meta.json'))['property'])")
 cd /verif
-git -C /repo apply $dst/patch.diff || { echo "patch does not apply"; exit 2; }
+git -C $REPO apply $dst/patch.diff || { echo "patch does not apply"; exit 2; }
 t0=$(date +%s)
-out=$(bin/vcheck -prop $prop -tier $tier 2>&1); rc=$?
+out=$(bin/vcheck -repo $REPO -prop $prop -tier $tier 2>&1); rc=$?
 t1=$(date +%s)
-git -C /repo checkout -- .
+git -C $REPO checkout -- .
 labels=$(echo "$out" | grep -E '^  harness=' | sed 's/  harness=\([^ ]*\) label=\([^ ]*\).*/\1\/\2/' | head -6 | tr '\n' ' ')
 python3 - "$dst" "$rc" "$((t1-t0))" "$labels" "$tier" <<'PY'
 import sys,json
